@@ -58,6 +58,9 @@ type MetaScan struct {
 // Attempt is any request that reached a server (executed or refused), for timing oracles.
 type Attempt struct {
 	Server, Region, Kind, Outcome string
+	Row                            string
+	Ident                          any
+	Tag                            int
 	At                             time.Duration
 }
 
@@ -77,11 +80,14 @@ type Cluster struct {
 	Down       map[string]bool     // server refuses connections
 	Silent     map[string]bool     // server accepts requests but never answers
 	Hold       map[string]bool     // row key -> the answer to user operations on it is held back (slow server)
+	KeyScript  map[string][]string // row key -> outcome classes of the next user operations on it ("" = execute)
 	Script     map[string][]string // region name (or table name, or "*") -> exception classes for the next operations
 	SrvScript  map[string][]string // server -> header-level exception classes for the next requests
 	ZKScript   []string            // errors for the next ZooKeeper lookups ("" = answer)
 	Counters   map[string]int64    // increment / append model table
 	Now        func() time.Duration
+	InMulti    bool // set while the actions of one multi-request are executed (header-level scripts were consumed by the caller)
+	Tag        int  // harness tag stamped on attempts (e.g. the number of the multi-request / queue operation)
 
 	Log       []Exec
 	Attempts  []Attempt
@@ -94,11 +100,13 @@ type Cluster struct {
 	Errors    []string // protocol errors seen by servers
 	nextID    uint64
 	resets    map[string][]func() // server -> live connections' reset callbacks
+	curRow    string
+	curIdent  any
 }
 
 func NewCluster(meta string) *Cluster {
 	return &Cluster{MetaAddr: meta, MasterAddr: "master:16000", Down: map[string]bool{}, Silent: map[string]bool{},
-		Hold: map[string]bool{}, Script: map[string][]string{}, SrvScript: map[string][]string{}, Counters: map[string]int64{},
+		Hold: map[string]bool{}, KeyScript: map[string][]string{}, Script: map[string][]string{}, SrvScript: map[string][]string{}, Counters: map[string]int64{},
 		Dials: map[string]int{}, Open: map[string]int{}, MaxOpen: map[string]int{}, resets: map[string][]func(){},
 		Now: func() time.Duration { return 0 }, nextID: 100}
 }
@@ -234,11 +242,16 @@ func (c *Cluster) pop(m map[string][]string, key string) (string, bool) {
 }
 
 func (c *Cluster) attempt(addr, region, kind, outcome string) {
-	c.Attempts = append(c.Attempts, Attempt{Server: addr, Region: region, Kind: kind, Outcome: outcome, At: c.Now()})
+	c.Attempts = append(c.Attempts, Attempt{Server: addr, Region: region, Kind: kind, Outcome: outcome, At: c.Now(), Tag: c.Tag, Row: c.curRow, Ident: c.curIdent})
 }
+
+// PopServerScript consumes the next header-level scripted exception of a server.
+func (c *Cluster) PopServerScript(addr string) (string, bool) { return c.pop(c.SrvScript, addr) }
 
 // ExecOp executes one single-row operation addressed to regionName on server addr.
 func (c *Cluster) ExecOp(addr string, regionName []byte, kind string, row []byte, ident any, frame int) OpResult {
+	c.curRow, c.curIdent = string(row), ident
+	defer func() { c.curRow, c.curIdent = "", nil }()
 	if c.Silent[addr] {
 		c.attempt(addr, string(regionName), kind, "silent")
 		return OpResult{NoAnswer: true}
@@ -247,9 +260,11 @@ func (c *Cluster) ExecOp(addr string, regionName []byte, kind string, row []byte
 		c.attempt(addr, string(regionName), kind, "held")
 		return OpResult{NoAnswer: true}
 	}
-	if cls, ok := c.pop(c.SrvScript, addr); ok {
-		c.attempt(addr, string(regionName), kind, cls)
-		return OpResult{Class: cls, Stack: "scripted server exception"}
+	if !c.InMulti {
+		if cls, ok := c.pop(c.SrvScript, addr); ok {
+			c.attempt(addr, string(regionName), kind, cls)
+			return OpResult{Class: cls, Stack: "scripted server exception"}
+		}
 	}
 	if string(regionName) == "hbase:meta,,1" {
 		// only the client's probe touches hbase:meta with a single-row operation
@@ -268,6 +283,12 @@ func (c *Cluster) ExecOp(addr string, regionName []byte, kind string, row []byte
 	if r == nil || r.Server != addr || !r.Contains(row) {
 		c.attempt(addr, string(regionName), kind, ClsNSRE)
 		return OpResult{Class: ClsNSRE, Stack: fmt.Sprintf("region %s is not online on %s", regionName, addr)}
+	}
+	if kind != "exists" {
+		if cls, ok := c.pop(c.KeyScript, string(row)); ok && cls != "" {
+			c.attempt(addr, string(regionName), kind, cls)
+			return OpResult{Class: cls, Stack: "scripted outcome for row " + string(row)}
+		}
 	}
 	for _, key := range []string{string(regionName), r.Table, "*"} {
 		if q := c.Script[key]; kind == "exists" && len(q) > 0 && (q[0] == ClsNoSuchFamily || q[0] == ClsApp) {
